@@ -61,6 +61,7 @@ func (ip *Interp) floatArith(op token.Token, w int, a, b *Term, site ssa.Instruc
 
 func (ip *Interp) binop(op token.Token, t types.Type, x, y Value, site ssa.Instruction) Value {
 	st := ip.st
+	x, y = ip.concStrV(x), ip.concStrV(y)
 	switch op {
 	case token.EQL:
 		return ip.equals(t, x, y, site)
@@ -229,7 +230,7 @@ func (ip *Interp) equals(t types.Type, x, y Value, site ssa.Instruction) *Term {
 		}
 		return st.Eq(xv, yv)
 	case Str:
-		return ip.strEq(xv, y.(Str))
+		return ip.strEq(ip.concStr(xv), ip.concStr(y.(Str)))
 	case Ptr:
 		return st.Bool(samePtr(xv, y.(Ptr)))
 	case Iface:
@@ -281,6 +282,7 @@ func (ip *Interp) equals(t types.Type, x, y Value, site ssa.Instruction) *Term {
 
 func (ip *Interp) conv(dst, src types.Type, x Value, site ssa.Instruction) Value {
 	st := ip.st
+	x = ip.concStrV(x)
 	ud, us := dst.Underlying(), src.Underlying()
 	switch us := us.(type) {
 	case *types.Pointer:
@@ -565,7 +567,7 @@ func (ip *Interp) selectByIndex(idx *Term, n int, elem func(i int) *Term) *Term 
 }
 
 func (ip *Interp) indexOp(fr *frame, instr *ssa.Index) Value {
-	x := fr.get(instr.X)
+	x := ip.concStrV(fr.get(instr.X))
 	idx := ip.idxTerm(fr.get(instr.Index), instr.Index.Type())
 	switch x := x.(type) {
 	case Array:
@@ -587,7 +589,7 @@ func (ip *Interp) indexOp(fr *frame, instr *ssa.Index) Value {
 }
 
 func (ip *Interp) lookup(fr *frame, instr *ssa.Lookup) Value {
-	x := fr.get(instr.X)
+	x := ip.concStrV(fr.get(instr.X))
 	switch x := x.(type) {
 	case Str:
 		idx := ip.idxTerm(fr.get(instr.Index), instr.Index.Type())
@@ -698,6 +700,7 @@ func (ip *Interp) sliceOp(fr *frame, instr *ssa.Slice) Value {
 
 func (ip *Interp) sliceValue(x Value, lo, hi, max *Term, site ssa.Instruction) Value {
 	st := ip.st
+	x = ip.concStrV(x)
 	var base []Value
 	var off, length, capacity int
 	isStr := false
@@ -819,6 +822,7 @@ func (ip *Interp) sliceValue(x Value, lo, hi, max *Term, site ssa.Instruction) V
 // ---- range ----
 
 func (ip *Interp) rangeIter(x Value, t types.Type) Value {
+	x = ip.concStrV(x)
 	switch x := x.(type) {
 	case *MapObj:
 		it := &Iter{m: x}
@@ -908,4 +912,23 @@ func (ip *Interp) concSlice(s Slice, what string) Slice {
 		c = s.Len
 	}
 	return Slice{Base: s.Base, Off: s.Off, Len: n, Cap: c}
+}
+
+// concStr turns a symbolic-length string view into an ordinary string.
+func (ip *Interp) concStr(s Str) Str {
+	if s.SymLen == nil {
+		return s
+	}
+	n := ip.concInt(s.SymLen, "string length")
+	if n > len(s.B) {
+		ip.oom("symbolic-length string longer than its tracked bytes")
+	}
+	return Str{B: s.B[:n]}
+}
+
+func (ip *Interp) concStrV(v Value) Value {
+	if s, ok := v.(Str); ok && s.SymLen != nil {
+		return ip.concStr(s)
+	}
+	return v
 }
